@@ -117,8 +117,11 @@ void ep_norm_sim(ep_t *r, const ep_t *t, int n) {
 		if (a == NULL) {
 			RLC_THROW(ERR_NO_MEMORY);
 		}
+		/* Every entry is null before anything can fail. */
 		for (i = 0; i < n; i++) {
 			fp_null(a[i]);
+		}
+		for (i = 0; i < n; i++) {
 			fp_new(a[i]);
 			fp_copy(a[i], t[i]->z);
 			if (ep_is_infty(t[i])) {
@@ -150,8 +153,10 @@ void ep_norm_sim(ep_t *r, const ep_t *t, int n) {
 		RLC_THROW(ERR_CAUGHT);
 	}
 	RLC_FINALLY {
-		for (i = 0; i < n; i++) {
-			fp_free(a[i]);
+		if (a != NULL) {
+			for (i = 0; i < n; i++) {
+				fp_free(a[i]);
+			}
 		}
 		RLC_FREE(a);
 	}
